@@ -210,7 +210,7 @@ func doHTTP(req *sut.Req) (interface{}, error) {
 		return nil, err
 	}
 	defer conn.Close()
-	_ = conn.SetDeadline(time.Now().Add(45 * time.Second))
+	_ = conn.SetDeadline(time.Now().Add(180 * time.Second))
 	werr := make(chan error, 1)
 	go func() {
 		_, e := conn.Write(req.Body)
